@@ -1,171 +1,418 @@
 /*
  * C20 - the memory log always holds the most recent 256 messages, oldest first.
  *
- * #include "mlog.c" makes the static `log` visible (snapshot / restore /
- * positioning of the message counter) with no edit to librfn.
+ * mlog.c (with string.c, util.c) is linked as an object of its own (bin/checks.d/C20.py: lib=[...]). Nothing here
+ * shares a translation unit with it and nothing here knows how it keeps its messages: the library state is the opaque
+ * image vx_lib_save / vx_lib_restore give (every static of the library), and every message count is reached by REAL
+ * mlog calls from an empty log. A worker walks up a ladder of counts once (up to 2^26+258 in the main part, up to
+ * 2^31+299 / +600 in the fold part - the internal counter of today's mlog.c folds at 2^31-1) and takes an image at each
+ * count it owns; an image taken after P real calls is a legitimate start state.
  *
- * Model: an UNBOUNDED list of the messages recorded since the last mlog_clear -
- * a 64-bit count n, a lazily generated prefix (message i of the bulk phase is a
- * pure function gen(i) of its sequence number) and an explicit tail for the
- * operations of the search. No ring arithmetic, no folding.
+ * Model: an UNBOUNDED list of the messages recorded since the last mlog_clear - a 64-bit count n, a lazily generated
+ * prefix (message i of the ladder is a pure function gen(i) of its number) and an explicit tail for the operations of
+ * the search. No ring arithmetic, no folding. The reference text of a message is produced by a format walker of the
+ * harness with properly typed arguments.
  *
- * Search: for every start state (message count P in {0,1,254..258,510..514}, P = 2^b + {-1,0,1,255,256}
- * for b = 9..30 (every width the counter could be narrowed to), and
- * P = 0x7fffffff+j, j = -300..299, i.e. every residue mod 256 on both sides of
- * the point where mlog.c folds its counter) vx_bfs over all sequences of <= D
- * operations from {mlog with 0,1,2,3 arguments, mlog_nice, mlog_clear}. After
- * building the start state and after every operation: mlog_get_line(k) for
- * k = -2..258 and a few extreme k, and the mlog_dump output (fmemopen), are
- * compared with the model.
+ * Reads are part of the history. After the start state and after every operation a reads pass runs mlog_get_line(k)
+ * for k = -2..258 and 11 extreme k, mlog_dump twice in a row and the boundary k twice in a row, each compared with the
+ * model, each executed on the live library. After every single read the library image is compared with the image
+ * before it: a read that leaves every static of the library byte-identical cannot influence anything that follows
+ * (the library is deterministic in its statics), so histories with that read in them add nothing; a read that DOES
+ * change the image (a cache, a cursor, a drained buffer) becomes an operation of the search from that state on -
+ * get_line(k) / dump are then interleaved with the writes like any other operation and the state after them is
+ * explored further.
  *
- * Start states with P <= 1024 are produced by P real mlog calls. The others are
- * produced by setting log.head = P-300 (a value the counter really has after
- * P-300 calls as long as it has not folded: head == count, checked by the long
- * run) followed by 300 real mlog calls, so ring content, slot alignment and the
- * fold itself are produced by the real code.
+ * Count family (ring arithmetic): vx_bfs over all sequences of <= D operations from {mlog, mlog_nice, mlog_clear}
+ * (+ impure reads) from every start count; the message of an operation rotates through 8 shapes (0..3 arguments) with
+ * its sequence number. Content family (what a message may contain): from the counts {0,1,255,256,257,600} one
+ * message of a menu of ~160 (every argument position with values on both sides of 2^7,8,15,16,31,32,63,64, int
+ * extremes and string pointers; 0..3 arguments; the empty format, formats without a trailing newline, %%; lines of
+ * 2^j-1, 2^j, 2^j+1 bytes for j = 5..16 through a %s argument and through a literal format) through mlog and through
+ * mlog_nice, followed by sequences over a reduced menu, mlog_clear and "the same call again".
  *
- * Thorough tier, long run: 2^31+600 real mlog calls from an empty log with no
- * positioning; compared with the model after every call near the start and
- * around the fold, and at every P of the positioned set the implementation
- * state (head + all 256 slots) and the observations must equal those of the
- * positioned construction (conformance of the shortcut).
+ * mlog_nice: the statement says "only while fewer than 256 have been recorded" - recording when there is room is not
+ * demanded, so it is not judged: after mlog_nice with room the harness looks (mlog_get_line(n)) whether a line was
+ * added and the model follows; what was recorded must be the message, and with 256 recorded nothing may be added.
  */
 #include "vx.h"
 
 #include <limits.h>
+#include <stdio_ext.h>
 
-#include "mlog.c"
+#include <librfn/mlog.h>
 
 uint32_t time_now(void) { return 0; }	/* referenced by librfn/util.c (ratelimit_check), not used here */
 
-#define RING 256
-#define FOLD 0x7fffffffULL		/* message count at which mlog.c first folds its counter */
+#define RING 256			/* "the most recent 256 messages": the statement's own number */
+#define FOLD 0x7fffffffULL		/* message count named by the statement ("wrap point after 2^31 messages") */
+
+static void die(const char *what) { fprintf(stderr, "c20: %s\n", what); _exit(3); }
+
+/* ------------------------------------------------------- constant strings */
+
+/* every format and every %s argument lives in one mmap()ed arena: never written after setup (mlog.h, restriction 1),
+ * and at an address above 2^32 whatever the link mode, so that a pointer cut to 32 bits cannot survive */
+#define ARENA_CAP (8u << 20)
+static char *arena; static size_t arena_used;
+static const char *arena_put(const char *s, size_t len)
+{
+	if (!arena) arena = vx_guard_alloc(ARENA_CAP, 0);
+	if (arena_used + len + 1 > ARENA_CAP) die("arena full");
+	char *p = arena + arena_used;
+	memcpy(p, s, len); p[len] = 0; arena_used += len + 1;
+	return p;
+}
+
+enum { T_L, T_I, T_P };			/* C type of an argument: unsigned long, int, const char * */
+typedef struct { const char *fmt; size_t fmtlen; uint8_t nargs, typ[3]; char conv[3]; } shape_t;
+#define MAXSHAPES 512
+static shape_t shapes[MAXSHAPES]; static int nshapes;
+typedef struct { const char *p; size_t len; } str_t;
+#define MAXSTRS 128
+static str_t strs[MAXSTRS]; static int nstrs;
+
+static int add_shape_n(const char *text, size_t len)
+{
+	if (nshapes >= MAXSHAPES) die("too many shapes");
+	shape_t *s = &shapes[nshapes];
+	memset(s, 0, sizeof(*s));
+	s->fmt = arena_put(text, len); s->fmtlen = len;
+	for (size_t i = 0; i < len; i++) {
+		if (text[i] != '%') continue;
+		char c = text[++i];
+		if (c == '%') continue;
+		if (s->nargs >= 3) die("format with more than three conversions");
+		if (c == 'l' && (text[i + 1] == 'u' || text[i + 1] == 'x')) { s->typ[s->nargs] = T_L; s->conv[s->nargs] = text[++i]; }
+		else if (c == 'd' || c == 'c') { s->typ[s->nargs] = T_I; s->conv[s->nargs] = c; }
+		else if (c == 's') { s->typ[s->nargs] = T_P; s->conv[s->nargs] = c; }
+		else die("unknown conversion in a harness format");
+		s->nargs++;
+	}
+	return nshapes++;
+}
+static int add_shape(const char *text) { return add_shape_n(text, strlen(text)); }
+static int add_str_n(const char *text, size_t len)
+{
+	if (nstrs >= MAXSTRS) die("too many strings");
+	strs[nstrs].p = arena_put(text, len); strs[nstrs].len = len;
+	return nstrs++;
+}
+/* len bytes of a non-repeating-looking pattern without '%' and without newline */
+static char *pattern(size_t len, unsigned salt)
+{
+	static const char abc[] = "abcdefghijklmnopqrstuvwxyz0123456789";
+	char *p = malloc(len + 1);
+	if (!p) die("out of memory");
+	for (size_t i = 0; i < len; i++) p[i] = abc[(i * 7 + i / 36 + salt) % 36];
+	p[len] = 0;
+	return p;
+}
 
 /* ----------------------------------------------------------------- messages */
 
-enum { F_Z0, F_Z1, F_Z2, F_Z3, F_Z4, F_Z5, F_Z6, F_ONE, F_TWO, F_THREE, F_NICE, NFMT };
-static const char *const fmts[NFMT] = {
-	"zero-a\n", "zero-b\n", "zero-c\n", "zero-d\n", "zero-e\n", "zero-f\n", "zero-g\n",
-	"one #%lu\n", "two #%lu [%s]\n", "three #%lu %d '%c'\n", "nice #%lu/%lx\n",
-};
-/* one argument is long enough to make the formatted line exceed any small fixed buffer (150 characters) */
-static const char *const words[5] = { "alpha", "bravo", "charlie", "delta",
-	"echo-echo-echo-echo-echo-echo-echo-echo-echo-echo-echo-echo-echo-echo-echo-echo-echo-echo-echo-echo-echo-echo-echo-echo-echo-echo-echo-echo-echo-echo" };
-enum { K_ZERO, K_ONE, K_TWO, K_THREE, K_NICE };
+/* a message = a shape + three argument values (T_L: the value; T_I: the int, sign-extended; T_P: index into strs) */
+typedef struct { uint32_t shape, pad; uint64_t a[3]; } msg_t;
 
-typedef struct { uint8_t kind, f; uint64_t a[3]; } msg_t;
-
-static void make_msg(int kind, uint64_t seq, msg_t *m)
+static void mk(msg_t *m, int shape, uint64_t a0, uint64_t a1, uint64_t a2)
 {
 	memset(m, 0, sizeof(*m));
-	m->kind = (uint8_t)kind;
-	switch (kind) {
-	case K_ZERO: m->f = (uint8_t)(F_Z0 + seq % 7); break;
-	case K_ONE: m->f = F_ONE; m->a[0] = seq; break;
-	case K_TWO: m->f = F_TWO; m->a[0] = seq; m->a[1] = seq % 5; break;
-	case K_THREE: m->f = F_THREE; m->a[0] = seq; m->a[1] = (uint64_t)(int64_t)-(int)(seq % 1000); m->a[2] = 'A' + seq % 26; break;
-	case K_NICE: m->f = F_NICE; m->a[0] = seq; m->a[1] = seq ^ 0x5a5a; break;
-	}
+	m->shape = (uint32_t)shape; m->a[0] = a0; m->a[1] = a1; m->a[2] = a2;
 }
-/* message number seq of the bulk phase */
-static void gen(uint64_t seq, msg_t *m) { make_msg((int)(seq & 3), seq, m); }
 
-/* the reference formatting, with properly typed arguments */
-static void msg_text(const msg_t *m, char *out, size_t n)
+/* the reference formatting: walks the format, every conversion printed from the properly typed value */
+typedef struct { char *s; size_t n, cap; } tb_t;
+static void tb_put(tb_t *b, const char *p, size_t len)
 {
-	switch (m->kind) {
-	case K_ZERO: snprintf(out, n, "%s", fmts[m->f]); break;	/* no conversion in these formats */
-	case K_ONE: snprintf(out, n, fmts[F_ONE], (unsigned long)m->a[0]); break;
-	case K_TWO: snprintf(out, n, fmts[F_TWO], (unsigned long)m->a[0], words[m->a[1]]); break;
-	case K_THREE: snprintf(out, n, fmts[F_THREE], (unsigned long)m->a[0], (int)(int64_t)m->a[1], (int)m->a[2]); break;
-	case K_NICE: snprintf(out, n, fmts[F_NICE], (unsigned long)m->a[0], (unsigned long)m->a[1]); break;
+	if (b->n + len + 1 > b->cap) { b->cap = (b->n + len + 1) * 2; b->s = realloc(b->s, b->cap); if (!b->s) die("out of memory"); }
+	memcpy(b->s + b->n, p, len); b->n += len; b->s[b->n] = 0;
+}
+static char *ref_text(const msg_t *m, size_t *lenp)
+{
+	const shape_t *sh = &shapes[m->shape];
+	tb_t b = {0}; char num[32]; int arg = 0;
+	tb_put(&b, "", 0);
+	for (size_t i = 0; i < sh->fmtlen; i++) {
+		char c = sh->fmt[i];
+		if (c != '%') { size_t j = i; while (j < sh->fmtlen && sh->fmt[j] != '%') j++; tb_put(&b, sh->fmt + i, j - i); i = j - 1; continue; }
+		c = sh->fmt[++i];
+		if (c == '%') { tb_put(&b, "%", 1); continue; }
+		uint64_t v = m->a[arg];
+		switch (sh->conv[arg]) {
+		case 'u': i++; tb_put(&b, num, (size_t)snprintf(num, sizeof(num), "%lu", (unsigned long)v)); break;
+		case 'x': i++; tb_put(&b, num, (size_t)snprintf(num, sizeof(num), "%lx", (unsigned long)v)); break;
+		case 'd': tb_put(&b, num, (size_t)snprintf(num, sizeof(num), "%d", (int)(int64_t)v)); break;
+		case 'c': num[0] = (char)(int)(int64_t)v; tb_put(&b, num, 1); break;
+		case 's': tb_put(&b, strs[v].p, strs[v].len); break;
+		}
+		arg++;
+	}
+	*lenp = b.n;
+	return b.s;
+}
+
+/* texts already formatted (a hash table without eviction; emptied only between reads passes, so a pointer handed out
+ * stays valid for the whole pass) */
+#define TC_CAP (1u << 14)
+static struct tc_e { msg_t m; char *text; size_t len; } tc[TC_CAP];
+static unsigned tc_n;
+static void tc_flush_if_full(void)
+{
+	if (tc_n < TC_CAP / 3) return;
+	for (unsigned i = 0; i < TC_CAP; i++) { free(tc[i].text); tc[i].text = NULL; }
+	tc_n = 0;
+}
+static const char *msg_text(const msg_t *m, size_t *lenp)
+{
+	uint64_t h = vx_mix(m->shape * 0x9e3779b97f4a7c15ULL ^ vx_mix(m->a[0]) ^ vx_mix(m->a[1] + 0x1234567) ^ vx_mix(m->a[2] + 0x89abcdef01ULL));
+	unsigned i = (unsigned)h & (TC_CAP - 1);
+	for (; tc[i].text; i = (i + 1) & (TC_CAP - 1))
+		if (0 == memcmp(&tc[i].m, m, sizeof(*m))) { if (lenp) *lenp = tc[i].len; return tc[i].text; }
+	if (tc_n >= TC_CAP - 64) die("text table full");
+	tc[i].m = *m; tc[i].text = ref_text(m, &tc[i].len); tc_n++;
+	if (lenp) *lenp = tc[i].len;
+	return tc[i].text;
+}
+
+/* hand the message to the real code, every argument with its C type, as many arguments as the format has conversions */
+typedef void (*logfn_t)(const char *, ...);
+#define A_T_L(i) ((unsigned long)m->a[i])
+#define A_T_I(i) ((int)(int64_t)m->a[i])
+#define A_T_P(i) (strs[m->a[i]].p)
+#define C1(x) case x: fn(f, A_##x(0)); break;
+#define C2(x, y) case x * 3 + y: fn(f, A_##x(0), A_##y(1)); break;
+#define C3(x, y, z) case (x * 3 + y) * 3 + z: fn(f, A_##x(0), A_##y(1), A_##z(2)); break;
+#define C3R(x, y) C3(x, y, T_L) C3(x, y, T_I) C3(x, y, T_P)
+#define C3RR(x) C3R(x, T_L) C3R(x, T_I) C3R(x, T_P)
+/* the argument registers a call does not use hold whatever the caller left there; give them the same content on every
+ * call so that "the same call again" really is the same call */
+static __attribute__((noinline)) void scrub(uint64_t a, uint64_t b, uint64_t c, uint64_t d, uint64_t e, uint64_t f)
+{
+	__asm__ volatile("" : : "r"(a), "r"(b), "r"(c), "r"(d), "r"(e), "r"(f) : "memory");
+}
+static __attribute__((noinline)) void issue(const msg_t *m, int nice)
+{
+	const shape_t *sh = &shapes[m->shape];
+	const char *f = sh->fmt;
+	logfn_t fn = nice ? mlog_nice : mlog;
+	scrub(0, 0, 0, 0, 0, 0);
+	switch (sh->nargs) {
+	case 0: fn(f); break;
+	case 1: switch (sh->typ[0]) { C1(T_L) C1(T_I) C1(T_P) } break;
+	case 2: switch (sh->typ[0] * 3 + sh->typ[1]) { C2(T_L, T_L) C2(T_L, T_I) C2(T_L, T_P) C2(T_I, T_L) C2(T_I, T_I) C2(T_I, T_P) C2(T_P, T_L) C2(T_P, T_I) C2(T_P, T_P) } break;
+	case 3: switch ((sh->typ[0] * 3 + sh->typ[1]) * 3 + sh->typ[2]) { C3RR(T_L) C3RR(T_I) C3RR(T_P) } break;
 	}
 }
-/* hand the message to the real code */
-static void issue(const msg_t *m, int nice)
+
+/* ---- the ladder: message number seq (0-based) of the real calls that build the start states */
+static int SH_Z[8], SH_B1, SH_B2, SH_B3, ST_W[4];
+static const char *f_z[8], *f_b1, *f_b2, *f_b3, *p_w[4];
+static void gen(uint64_t seq, msg_t *m)
 {
-	const char *f = fmts[m->f];
-	switch (m->kind) {
-	case K_ZERO: if (nice) mlog_nice(f); else mlog(f); break;
-	case K_ONE: mlog(f, (unsigned long)m->a[0]); break;
-	case K_TWO: mlog(f, (unsigned long)m->a[0], words[m->a[1]]); break;
-	case K_THREE: mlog(f, (unsigned long)m->a[0], (int)(int64_t)m->a[1], (int)m->a[2]); break;
-	case K_NICE: mlog_nice(f, (unsigned long)m->a[0], (unsigned long)m->a[1]); break;
+	switch (seq & 3) {
+	case 0: mk(m, SH_Z[(seq >> 2) & 7], 0, 0, 0); break;
+	case 1: mk(m, SH_B1, seq + (1ULL << 40), 0, 0); break;				/* first argument >= 2^32 */
+	case 2: mk(m, SH_B2, seq, (uint64_t)ST_W[(seq >> 2) & 3], 0); break;			/* a pointer second */
+	default: mk(m, SH_B3, (uint64_t)(int64_t)-(int)(seq & 1023), 'A' + ((seq >> 2) & 15), seq * 0x100000001ULL); break; /* third >= 2^32 */
 	}
+}
+/* the same message through direct, typed calls (the oracle would show any disagreement with gen) */
+static inline void bulk_issue(uint64_t seq)
+{
+	switch (seq & 3) {
+	case 0: mlog(f_z[(seq >> 2) & 7]); break;
+	case 1: mlog(f_b1, (unsigned long)(seq + (1ULL << 40))); break;
+	case 2: mlog(f_b2, (unsigned long)seq, p_w[(seq >> 2) & 3]); break;
+	default: mlog(f_b3, -(int)(seq & 1023), (int)('A' + ((seq >> 2) & 15)), (unsigned long)(seq * 0x100000001ULL)); break;
+	}
+}
+
+/* ---- count family: the message an operation issues rotates with its sequence number */
+static int SH_C[8], ST_C[2];
+static void count_msg(uint64_t seq, msg_t *m)
+{
+	uint64_t u = seq ^ 0xabcd00000000ULL;
+	switch (seq & 7) {
+	case 0: mk(m, SH_C[0], u, 0, 0); break;							/* "%lu" wide */
+	case 1: mk(m, SH_C[1], (uint64_t)ST_C[seq >> 3 & 1], u, 0); break;				/* %s first, wide second */
+	case 2: mk(m, SH_C[2], 0, 0, 0); break;								/* no argument */
+	case 3: mk(m, SH_C[3], seq, (uint64_t)(int64_t)-(int)(seq & 0xffff), (uint64_t)ST_C[~seq >> 3 & 1]); break;	/* %s third */
+	case 4: mk(m, SH_C[4], 0, 0, 0); break;								/* no argument, no newline */
+	case 5: mk(m, SH_C[5], u, ~u, u << 20 | 5); break;						/* three wide ones */
+	case 6: mk(m, SH_C[6], (uint64_t)(int64_t)(int)(seq * 2654435761u), 'a' + seq % 26, 0); break;
+	default: mk(m, SH_C[7], seq, 0, 0); break;
+	}
+}
+
+/* ---- content family: the menu */
+typedef struct { msg_t m; char label[56]; uint8_t reduced; } menu_t;
+#define MAXMENU 256
+static menu_t menu[MAXMENU]; static int nmenu, nreduced;
+__attribute__((format(printf, 6, 7)))
+static void menu_add(int reduced, int shape, uint64_t a0, uint64_t a1, uint64_t a2, const char *fmt, ...)
+{
+	if (nmenu >= MAXMENU) die("menu full");
+	menu_t *e = &menu[nmenu++];
+	mk(&e->m, shape, a0, a1, a2);
+	e->reduced = (uint8_t)reduced; nreduced += reduced;
+	va_list ap; va_start(ap, fmt); vsnprintf(e->label, sizeof(e->label), fmt, ap); va_end(ap);
+}
+
+static void setup_tables(void)
+{
+	static const char *const zt[8] = { "zero-a\n", "zero-b\n", "zero-c\n", "zero-d\n", "zero-e\n", "zero-f\n", "zero-g\n", "zero-h (no newline)|" };
+	static const char *const wt[4] = { "alpha", "bravo", "charlie", "" };
+	for (int i = 0; i < 8; i++) { SH_Z[i] = add_shape(zt[i]); f_z[i] = shapes[SH_Z[i]].fmt; }
+	for (int i = 0; i < 4; i++) { ST_W[i] = add_str_n(wt[i], strlen(wt[i])); p_w[i] = strs[ST_W[i]].p; }
+	SH_B1 = add_shape("one #%lu\n"); f_b1 = shapes[SH_B1].fmt;
+	SH_B2 = add_shape("two #%lu [%s]\n"); f_b2 = shapes[SH_B2].fmt;
+	SH_B3 = add_shape("three %d '%c' #%lx\n"); f_b3 = shapes[SH_B3].fmt;
+
+	ST_C[0] = add_str_n("delta", 5); ST_C[1] = add_str_n("echo echo", 9);
+	SH_C[0] = add_shape("c0 %lu\n"); SH_C[1] = add_shape("c1 %s=%lx\n"); SH_C[2] = add_shape("c2 plain\n");
+	SH_C[3] = add_shape("c3 %lu %d <%s>\n"); SH_C[4] = add_shape("c4 open|"); SH_C[5] = add_shape("c5 %lx %lu %lx\n");
+	SH_C[6] = add_shape("c6 %d%c\n"); SH_C[7] = add_shape("c7 100%% #%lu\n");
+
+	int s_empty = add_str_n("", 0), s_a = add_str_n("a", 1), s_hello = add_str_n("hello world", 11), s_key = add_str_n("key", 3);
+	/* forms */
+	menu_add(1, add_shape(""), 0, 0, 0, "fmt:empty");
+	menu_add(0, add_shape("\n"), 0, 0, 0, "fmt:newline-only");
+	menu_add(1, add_shape("plain text\n"), 0, 0, 0, "fmt:plain");
+	menu_add(1, add_shape("no trailing newline"), 0, 0, 0, "fmt:no-newline");
+	menu_add(1, add_shape("100%%\n"), 0, 0, 0, "fmt:percent");
+	menu_add(1, add_shape("%%"), 0, 0, 0, "fmt:percent-only");
+	menu_add(0, add_shape("%%%% %%|"), 0, 0, 0, "fmt:percents-no-newline");
+	menu_add(1, add_shape("v=%lu\n"), 42, 0, 0, "1arg:%%lu");
+	menu_add(1, add_shape("%lx"), 0xdeadbeefcafeULL, 0, 0, "1arg:%%lx-wide-no-newline");
+	menu_add(0, add_shape("%d\n"), (uint64_t)(int64_t)-7, 0, 0, "1arg:%%d");
+	menu_add(0, add_shape("[%c]\n"), 'q', 0, 0, "1arg:%%c");
+	menu_add(1, add_shape("%s\n"), (uint64_t)s_hello, 0, 0, "1arg:%%s");
+	menu_add(1, add_shape("%s"), (uint64_t)s_hello, 0, 0, "1arg:%%s-no-newline");
+	menu_add(0, add_shape("<%s>\n"), (uint64_t)s_empty, 0, 0, "1arg:%%s-empty-string");
+	menu_add(0, add_shape("%% %lu %%\n"), 7, 0, 0, "1arg:%%lu-between-percents");
+	menu_add(1, add_shape("%lu,%lu\n"), 1, 2, 0, "2arg:%%lu,%%lu");
+	menu_add(1, add_shape("%s=%lu\n"), (uint64_t)s_key, (1ULL << 33) + 5, 0, "2arg:%%s=%%lu-wide");
+	menu_add(0, add_shape("%lu:%s"), 1ULL << 40, (uint64_t)s_hello, 0, "2arg:%%lu-wide:%%s-no-newline");
+	menu_add(0, add_shape("%d %d\n"), (uint64_t)(int64_t)-1, (uint64_t)(int64_t)INT_MIN, 0, "2arg:%%d,%%d");
+	menu_add(1, add_shape("%lu %lu %lu\n"), 11, 22, 33, "3arg:small");
+	menu_add(1, add_shape("%s|%s|%s\n"), (uint64_t)s_a, (uint64_t)s_hello, (uint64_t)s_key, "3arg:%%s,%%s,%%s");
+	menu_add(0, add_shape("%s %lu %lu\n"), (uint64_t)s_hello, 1ULL << 32, ~0ULL, "3arg:%%s-first");
+	menu_add(1, add_shape("%lu %s %lu\n"), 1ULL << 32, (uint64_t)s_hello, ~0ULL, "3arg:%%s-second");
+	menu_add(0, add_shape("%lu %lu %s\n"), 1ULL << 32, ~0ULL, (uint64_t)s_hello, "3arg:%%s-third");
+	menu_add(1, add_shape("%d %c %s"), (uint64_t)(int64_t)-5, 'Z', (uint64_t)s_hello, "3arg:%%d,%%c,%%s-no-newline");
+	menu_add(0, add_shape("%lx%lx%lx"), 0xabcULL << 36, 0xdefULL << 40, 0x123456789abcdefULL, "3arg:%%lx-adjacent");
+	/* values: both sides of every width an argument slot could be cut to, in every position */
+	static const uint64_t V[] = { 0, 1, 0x7f, 0x80, 0xff, 0x100, 0x7fff, 0x8000, 0xffff, 0x10000, 0x7fffffffULL, 0x80000000ULL,
+		0xffffffffULL, 0x100000000ULL, 0x7fffffffffffffffULL, 0x8000000000000000ULL, 0xffffffffffffffffULL };
+	int sh_u3 = add_shape("u %lu %lu %lu\n"), sh_d3 = add_shape("d %d %d %d\n");
+	for (int pos = 0; pos < 3; pos++)
+		for (unsigned i = 0; i < sizeof(V) / sizeof(V[0]); i++) {
+			uint64_t a[3] = { 11, 22, 33 }; a[pos] = V[i];
+			menu_add((pos == 0 && V[i] == 0x100000000ULL) || (pos == 1 && V[i] == 0x80000000ULL) || (pos == 2 && V[i] == 0xffffffffffffffffULL), sh_u3, a[0], a[1], a[2],
+				 "value:%%lu:arg%d=0x%llx", pos, (unsigned long long)V[i]);
+		}
+	static const int D[] = { INT_MIN, -1, INT_MAX };
+	for (int pos = 0; pos < 3; pos++)
+		for (int i = 0; i < 3; i++) {
+			uint64_t a[3] = { 11, 22, 33 }; a[pos] = (uint64_t)(int64_t)D[i];
+			menu_add(pos == 1 && D[i] == INT_MIN, sh_d3, a[0], a[1], a[2], "value:%%d:arg%d=%d", pos, D[i]);
+		}
+	/* line lengths: both sides of every power of two a buffer could have, through an argument and through the format */
+	int sh_sn = add_shape("%s\n"), sh_usu = add_shape("%lu %s %lu");
+	for (int j = 5; j <= 16; j++)
+		for (int d = -1; d <= 1; d++) {
+			size_t L = ((size_t)1 << j) + (size_t)(int64_t)d;
+			char *p = pattern(L - 1, (unsigned)L);
+			int si = add_str_n(p, L - 1);
+			menu_add(L == 129 || L == 257, sh_sn, (uint64_t)si, 0, 0, "line:%zu-bytes:%%s", L);
+			free(p);
+			p = pattern(L, (unsigned)L + 17); p[L - 1] = '\n';
+			menu_add(L == 1025 || L == 4097, add_shape_n(p, L), 0, 0, 0, "line:%zu-bytes:literal-format", L);
+			free(p);
+			if (L == 257 || L == 1025 || L == 4097) menu_add(0, sh_usu, 1ULL << 32, (uint64_t)si, 77, "line:%zu+-bytes:%%lu,%%s,%%lu", L);
+		}
 }
 
 /* -------------------------------------------------------------- live state */
 
-#define TEXTMAX 192
-#define MAXEXP 8
+#define MAXEXP 10
+static const int extra_k[] = { INT_MIN, INT_MIN + 255, -65536, -257, -256, -255, 511, 512, 65536, INT_MAX - 255, INT_MAX };
+#define NKSEQ 261
+#define NK (NKSEQ + (int)(sizeof(extra_k) / sizeof(extra_k[0])))
+#define R_DUMP NK
+#define NREADS (NK + 1)
+static int kval(int i) { return i < NKSEQ ? i - 2 : extra_k[i - NKSEQ]; }
+static int kidx(int k)
+{
+	if (k >= -2 && k <= 258) return k + 2;
+	for (int i = NKSEQ; i < NK; i++) if (extra_k[i - NKSEQ] == k) return i;
+	return -1;
+}
+/* the reads that can become operations of the search (when they are found to change the library's statics): the dump and
+ * mlog_get_line(k) for the k classes relative to the number v of visible lines at that moment */
+#define NREP 12
+#define NREADOPS (NREP + 1)
+static const char *const repname[NREADOPS] = { "-1", "0", "1", "v-2", "v-1", "v", "v+1", "254", "255", "256", "INT_MIN", "INT_MAX", NULL };
+static int repk(int j, uint64_t vis)
+{
+	const int v = (int)vis, t[NREP] = { -1, 0, 1, v - 2, v - 1, v, v + 1, 254, 255, 256, INT_MIN, INT_MAX };
+	return t[j];
+}
+/* read index of read operation j in a state with vis visible lines; -1 = the same read as an earlier j */
+static int rep_read(int j, uint64_t vis)
+{
+	if (j == NREP) return NK;	/* R_DUMP */
+	int k = repk(j, vis);
+	for (int i = 0; i < j; i++) if (repk(i, vis) == k) return -1;
+	return kidx(k);
+}
+
 static struct live {
-	struct mlog lg;			/* image of mlog.c's static log (copied in/out around every operation) */
 	/* model: messages since the last clear = gen(fill_base+0..fill_n-1) ++ exp[0..nexp-1] */
 	uint64_t n, seq, fill_n, fill_base;
 	uint32_t nexp, depth;
-	struct { msg_t m; char text[TEXTMAX]; } exp[MAXEXP];
+	msg_t exp[MAXEXP];
+	msg_t last; uint32_t last_valid;		/* the previous message call (for "the same call again") */
+	uint32_t reads_used;				/* read operations in this history (at most MAXREADOPS: 1 quick, 2 thorough) */
+	uint8_t impure[(NREADS + 7) / 8];		/* reads that changed the library image in this state (derived, not hashed) */
 } S;
 
-/* memo of bulk-phase texts (direct mapped; purely a cache of msg_text(gen(seq))) */
-static struct { uint64_t seq1; char text[TEXTMAX]; } memo[1024];
-static const char *bulk_text(uint64_t seq)
+static void model_msg(uint64_t i, msg_t *m)
 {
-	unsigned i = (unsigned)(seq & 1023);
-	if (memo[i].seq1 != seq + 1) { msg_t m; gen(seq, &m); msg_text(&m, memo[i].text, TEXTMAX); memo[i].seq1 = seq + 1; }
-	return memo[i].text;
+	if (i < S.fill_n) gen(S.fill_base + i, m); else *m = S.exp[i - S.fill_n];
 }
-/* text of message number i (0-based) since the last clear */
-static const char *model_line(uint64_t i)
-{
-	if (i < S.fill_n) return bulk_text(S.fill_base + i);
-	return S.exp[i - S.fill_n].text;
-}
+static const char *model_line(uint64_t i, size_t *len) { msg_t m; model_msg(i, &m); return msg_text(&m, len); }
 static void model_append(const msg_t *m)
 {
-	if (S.nexp >= MAXEXP) { fprintf(stderr, "c20: explicit tail overflow\n"); _exit(3); }
-	S.exp[S.nexp].m = *m; memset(S.exp[S.nexp].text, 0, TEXTMAX); msg_text(m, S.exp[S.nexp].text, TEXTMAX);
-	S.nexp++; S.n++;
-}
-
-/* canonical form of the implementation: counter + all 256 slots (stale ones too), format by index and only the
- * argument bits the format consumes (unused variadic slots hold register garbage) */
-static void canon_impl(vx_hasher *h)
-{
-	vx_h_u64(h, log.head);
-	for (int i = 0; i < RING; i++) {
-		const struct mlog_line *l = &log.line[i];
-		int f = l->fmt ? NFMT + 1 : NFMT;
-		for (int k = 0; k < NFMT; k++) if (l->fmt == fmts[k]) f = k;
-		vx_h_u64(h, (uint64_t)f);
-		switch (f) {
-		case F_ONE: vx_h_u64(h, l->arg[0]); break;
-		case F_TWO: { int w = -1; for (int k = 0; k < 5; k++) if ((const char *)l->arg[1] == words[k]) w = k;
-			      vx_h_u64(h, l->arg[0]); vx_h_u64(h, (uint64_t)w); break; }
-		case F_THREE: vx_h_u64(h, l->arg[0]); vx_h_u64(h, l->arg[1] & 0xffffffffu); vx_h_u64(h, l->arg[2] & 0xffffffffu); break;
-		case F_NICE: vx_h_u64(h, l->arg[0]); vx_h_u64(h, l->arg[1]); break;
-		default: break;
-		}
-	}
+	if (S.nexp >= MAXEXP) die("explicit tail overflow");
+	S.exp[S.nexp++] = *m; S.n++;
 }
 static void canon_model(vx_hasher *h)
 {
-	vx_h_u64(h, S.n); vx_h_u64(h, S.seq); vx_h_u64(h, S.fill_n); vx_h_u64(h, S.fill_base); vx_h_u64(h, S.nexp);
-	for (unsigned i = 0; i < S.nexp; i++) vx_h_bytes(h, S.exp[i].text, TEXTMAX);
+	vx_h_u64(h, S.n); vx_h_u64(h, S.seq); vx_h_u64(h, S.fill_n); vx_h_u64(h, S.fill_base); vx_h_u64(h, S.nexp); vx_h_u64(h, S.last_valid); vx_h_u64(h, S.reads_used);
+	vx_h_bytes(h, S.exp, sizeof(S.exp)); vx_h_bytes(h, &S.last, sizeof(S.last));
 }
 
 /* ------------------------------------------------------------------ oracle */
 
-enum { CTX_START, CTX_BFS, CTX_LONG };
-static int ctx_mode; static uint64_t ctx_P; static const char *ctx_after = "start";
+enum { FAM_COUNT, FAM_CONTENT };
+enum { CTX_START, CTX_BFS };
+static int fam, split_j, split_n = 1, bfs_depth;
+static int ctx_mode; static uint64_t ctx_P, ctx_Q; static const char *ctx_after = "start";
 static vx_bfs B;
+static char cfgname[64];
 
-static uint64_t n_lines_compared, n_null_expected, n_dumps, n_observations, max_n_seen;
+static uint64_t n_lines_compared, n_null_expected, n_dumps, n_passes, max_n_seen, n_impure, n_reads, max_line_len;
 static vx_set obs_set;
-static vx_h128 last_obs;
+static int leaked_file;
 
 static const char *region(void)
 {
 	return S.n == 0 ? "n=0" : S.n < RING ? "0<n<256" : S.n == RING ? "n=256" : S.n < FOLD ? "256<n<2^31-1" : "n>=2^31-1";
+}
+static void set_cfgname(void)
+{
+	if (fam == FAM_COUNT) snprintf(cfgname, sizeof(cfgname), "N%llu+%llu", (unsigned long long)ctx_P, (unsigned long long)ctx_Q);
+	else snprintf(cfgname, sizeof(cfgname), "T%llu/%d/%d", (unsigned long long)ctx_P, split_j, split_n);
 }
 
 __attribute__((format(printf, 3, 4)))
@@ -174,320 +421,429 @@ static void fail(const char *clause, const char *detail, const char *fmt, ...)
 	vx_sb sig = {0}, rep = {0}, hist = {0};
 	va_list ap; va_start(ap, fmt); char *m = vx_vfmt(fmt, ap); va_end(ap);
 	vx_sb_printf(&sig, "C20|%s|%s|%s|after:%s", clause, detail, region(), ctx_after);
-	if (ctx_mode == CTX_BFS) { vx_sb_printf(&rep, "mode=bfs\n"); vx_bfs_history(&B, &hist, &rep); }
-	else if (ctx_mode == CTX_START) { vx_sb_printf(&rep, "mode=bfs\nconfig=P%llu\nops=\n", (unsigned long long)ctx_P); vx_sb_printf(&hist, "%s", ""); }
-	else { vx_sb_printf(&rep, "mode=longrun\ncount=%llu\n", (unsigned long long)S.n); vx_sb_printf(&hist, "%s", ""); }
-	if (ctx_mode == CTX_LONG)
-		vx_violation(sig.s, rep.s, "%s: %s -- after %llu real mlog calls on an empty log (long run)", clause, m, (unsigned long long)S.n);
-	else
-		vx_violation(sig.s, rep.s, "%s: %s -- start state: %llu messages logged (%s); then [%s]; messages since last clear n=%llu",
-			     clause, m, (unsigned long long)ctx_P, ctx_P <= 1024 ? "all by real calls" : "counter placed 300 calls earlier, then 300 real calls",
-			     hist.s ? hist.s : "", (unsigned long long)S.n);
+	vx_sb_printf(&rep, "mode=bfs\n");
+	if (ctx_mode == CTX_BFS) { vx_bfs_history(&B, &hist, &rep); B.max_states = 1; }	/* this search ends with its first counterexample */
+	else { set_cfgname(); vx_sb_printf(&rep, "config=%s\nops=\n", cfgname); vx_sb_printf(&hist, "%s", ""); }
+	char second[96] = "";
+	if (ctx_Q) snprintf(second, sizeof(second), ", mlog_clear, %llu more real mlog calls", (unsigned long long)ctx_Q);
+	vx_violation(sig.s, rep.s, "%s: %s -- start state: %llu messages logged by real mlog calls on an empty log%s; then [%s]; messages since last clear n=%llu",
+		     clause, m, (unsigned long long)ctx_P, second, hist.s ? hist.s : "", (unsigned long long)S.n);
 	free(m); free(sig.s); free(rep.s); free(hist.s);
 }
+static const char *fault_word(void) { return vx_fault_kind == VX_FAULT_ASSERT ? "assert" : vx_fault_kind == VX_FAULT_HANG ? "hang" : "signal"; }
 
-static const int extra_k[] = { INT_MIN, INT_MIN + 255, -65536, -257, -256, -255, 511, 512, 65536, INT_MAX - 255, INT_MAX };
-#define NK (261 + (int)(sizeof(extra_k) / sizeof(extra_k[0])))
-static int kval(int i) { return i < 261 ? i - 2 : extra_k[i - 261]; }
+/* a line for a message: at most 100 bytes of it, control characters escaped */
+static const char *show(const char *t)
+{
+	static char buf[4][160]; static int rot;
+	char *o = buf[rot = (rot + 1) & 3]; size_t len = strlen(t), n = 0;
+	for (size_t i = 0; i < len && n < 100; i++) {
+		unsigned char c = (unsigned char)t[i];
+		if (c == '\n') { o[n++] = '\\'; o[n++] = 'n'; } else if (c < 0x20 || c >= 0x7f) { o[n++] = '?'; } else o[n++] = (char)c;
+	}
+	if (len > 100) n += (size_t)snprintf(o + n, 40, "... (%zu bytes)", len);
+	o[n] = 0;
+	return o;
+}
 
-static char dumpbuf[1 << 16], expbuf[1 << 16];
-static char *got[NK]; static volatile int cur_ki;
+/* the expected lines of this pass */
+static const char *exp_line[RING]; static size_t exp_len[RING];
+static uint64_t exp_vis, exp_base;
+static char *expdump; static size_t expdump_len, expdump_cap;
 
 /* which recent message has this text? returns 1 and the offset to `want`, or 0 */
 static int find_msg(const char *text, uint64_t want, long long *off)
 {
 	uint64_t lo = want > 600 ? want - 600 : 0, hi = S.n;
-	for (uint64_t i = hi; i-- > lo; ) if (0 == strcmp(model_line(i), text)) { *off = (long long)i - (long long)want; return 1; }
+	for (uint64_t i = hi; i-- > lo; ) if (0 == strcmp(model_line(i, NULL), text)) { *off = (long long)i - (long long)want; return 1; }
 	return 0;
 }
 
-/* compare everything the property names with the model; 1 = violation recorded */
-static int observe(void)
+/* mlog_dump goes into a sink of the harness: bounded memory whatever the library writes, nothing of stdio's locking */
+static struct { char *buf; size_t n, cap, limit; uint64_t total; } sink;
+static ssize_t sink_write(void *c, const char *p, size_t n)
 {
-	uint64_t vis = S.n < RING ? S.n : RING, base = S.n - vis;
-	int bad = 0;
+	(void)c;
+	sink.total += n;
+	size_t room = sink.limit > sink.n ? sink.limit - sink.n : 0, k = n < room ? n : room;
+	if (sink.n + k + 1 > sink.cap) { sink.cap = (sink.n + k + 1) * 2; sink.buf = realloc(sink.buf, sink.cap); if (!sink.buf) _exit(3); }
+	memcpy(sink.buf + sink.n, p, k); sink.n += k;
+	return (ssize_t)n;
+}
+
+static char *volatile got_line; static volatile int cur_k;
+
+/* mlog.h: "The string returned is dynamically allocated and should be freed using free()" - if free() does not survive the
+ * pointer, that is the library's doing and must not take the worker down; 1 = violation recorded */
+static int release_line(char *p, int k)
+{
+	if (!p) return 0;
+	if (VX_TRY) { free(p); VX_END; return 0; }
+	VX_END;
+	fail("get_line-fault", "result cannot be freed", "free() of the string returned by mlog_get_line(%d): %s", k, vx_fault_msg);
+	return 1;
+}
+
+/* one read on the live library, compared with the model; 1 = violation recorded */
+static int do_read(int r, vx_hasher *h)
+{
 	char d[128];
-	n_observations++;
-	if (S.n > max_n_seen) max_n_seen = S.n;
-	for (int i = 0; i < NK; i++) got[i] = NULL;
-	if (VX_TRY) {
-		for (int i = 0; i < NK; i++) { cur_ki = i; got[i] = mlog_get_line(kval(i)); }
-		VX_END;
-	} else {
-		VX_END;
-		snprintf(d, sizeof(d), "%s", vx_fault_kind == VX_FAULT_ASSERT ? "assert" : vx_fault_kind == VX_FAULT_HANG ? "hang" : "signal");
-		fail("get_line-fault", d, "mlog_get_line(%d): %s", kval(cur_ki), vx_fault_msg);
-		return 1;	/* (strings obtained so far are leaked - the state is not expanded) */
-	}
-	vx_hasher h; vx_h_init(&h);
-	for (int i = 0; i < NK && !bad; i++) {
-		int k = kval(i);
-		const char *want = (k >= 0 && (uint64_t)k < vis) ? model_line(base + (uint64_t)k) : NULL;
+	n_reads++;
+	if (r != R_DUMP) {
+		int k = kval(r);
+		cur_k = k; got_line = NULL;
+		if (VX_TRY) { got_line = mlog_get_line(k); VX_END; }
+		else {
+			VX_END;
+			fail("get_line-fault", fault_word(), "mlog_get_line(%d): %s", k, vx_fault_msg);
+			return 1;
+		}
+		char *got = got_line;
+		const char *want = (k >= 0 && (uint64_t)k < exp_vis) ? exp_line[k] : NULL;
+		int bad = 0;
 		if (want) n_lines_compared++; else n_null_expected++;
-		if (got[i]) vx_h_bytes(&h, got[i], strlen(got[i]) + 1); else vx_h_u64(&h, 0xdeadULL);
-		if (!want && got[i]) {
+		if (h) { if (got) vx_h_bytes(h, got, strlen(got) + 1); else vx_h_u64(h, 0xdeadULL); }
+		if (!want && got) {
 			fail("get_line-not-null", k < 0 ? "negative k" : "k>=min(n,256)", "mlog_get_line(%d) returned \"%s\", must be NULL (%llu lines visible)",
-			     k, got[i], (unsigned long long)vis);
+			     k, show(got), (unsigned long long)exp_vis);
 			bad = 1;
-		} else if (want && !got[i]) {
-			fail("get_line-null", "line missing", "mlog_get_line(%d) returned NULL, must be \"%s\" (%llu lines visible)", k, want, (unsigned long long)vis);
+		} else if (want && !got) {
+			fail("get_line-null", "line missing", "mlog_get_line(%d) returned NULL, must be \"%s\" (%llu lines visible)", k, show(want), (unsigned long long)exp_vis);
 			bad = 1;
-		} else if (want && strcmp(want, got[i])) {
-			long long off;
-			if (find_msg(got[i], base + (uint64_t)k, &off)) snprintf(d, sizeof(d), "is the message %+lld places from the right one", off);
+		} else if (want && (strlen(got) != exp_len[k] || memcmp(want, got, exp_len[k]))) {
+			long long off; size_t gl = strlen(got);
+			if (find_msg(got, exp_base + (uint64_t)k, &off)) snprintf(d, sizeof(d), "is the message %+lld places from the right one", off);
+			else if (gl < exp_len[k] && 0 == memcmp(want, got, gl)) snprintf(d, sizeof(d), "is cut short");
 			else snprintf(d, sizeof(d), "is not a recent message");
-			fail("get_line-text", d, "mlog_get_line(%d) returned \"%s\", must be \"%s\" (message number %llu since the clear)",
-			     k, got[i], want, (unsigned long long)(base + (uint64_t)k));
+			fail("get_line-text", d, "mlog_get_line(%d) returned \"%s\" (%zu bytes), must be \"%s\" (%zu bytes; message number %llu since the clear)",
+			     k, show(got), gl, show(exp_line[k]), exp_len[k], (unsigned long long)(exp_base + (uint64_t)k));
 			bad = 1;
 		}
+		if (bad) { if (VX_TRY) { free(got); VX_END; } else VX_END; return 1; }
+		return release_line(got, k);
 	}
-	for (int i = 0; i < NK; i++) free(got[i]);
-	if (bad) return 1;
 	/* mlog_dump */
-	size_t el = 0;
-	for (uint64_t i = 0; i < vis; i++) { const char *t = model_line(base + i); size_t l = strlen(t); memcpy(expbuf + el, t, l); el += l; }
-	expbuf[el] = 0;
-	FILE *f = fmemopen(dumpbuf, sizeof(dumpbuf) - 1, "w");
-	if (!f) { perror("fmemopen"); _exit(3); }
-	long dl = -1;
+	static cookie_io_functions_t io = { NULL, sink_write, NULL, NULL };
+	sink.n = 0; sink.total = 0; sink.limit = expdump_len + 65536;
+	FILE *f = fopencookie(NULL, "w", io);
+	if (!f) die("fopencookie");
+	__fsetlocking(f, FSETLOCKING_BYCALLER);
 	if (VX_TRY) { mlog_dump(f); VX_END; }
 	else {
-		VX_END; fclose(f);
-		snprintf(d, sizeof(d), "%s", vx_fault_kind == VX_FAULT_ASSERT ? "assert" : vx_fault_kind == VX_FAULT_HANG ? "hang" : "signal");
-		fail("dump-fault", d, "mlog_dump: %s", vx_fault_msg);
+		VX_END;
+		leaked_file = 1;	/* the FILE is in an unknown state: leave it alone */
+		fail("dump-fault", fault_word(), "mlog_dump: %s", vx_fault_msg);
 		return 1;
 	}
-	fflush(f); dl = ftell(f); fclose(f);
-	if (dl < 0) dl = 0;
-	dumpbuf[dl] = 0;
+	fclose(f);
 	n_dumps++;
-	vx_h_bytes(&h, dumpbuf, (size_t)dl);
-	if ((size_t)dl != el || memcmp(dumpbuf, expbuf, el)) {
-		size_t p = 0; while (p < el && p < (size_t)dl && dumpbuf[p] == expbuf[p]) p++;
-		fail("dump", (size_t)dl < el ? "too short" : (size_t)dl > el ? "too long" : "different text",
-		     "mlog_dump wrote %ld bytes, the %llu visible lines are %zu bytes; first difference at byte %zu", dl, (unsigned long long)vis, el, p);
+	if (h) vx_h_bytes(h, sink.buf ? sink.buf : "", sink.n);
+	if (sink.total != expdump_len || memcmp(sink.buf ? sink.buf : "", expdump, expdump_len)) {
+		size_t p = 0; while (p < expdump_len && p < sink.n && sink.buf[p] == expdump[p]) p++;
+		fail("dump", sink.total < expdump_len ? "too short" : sink.total > expdump_len ? "too long" : "different text",
+		     "mlog_dump wrote %llu bytes, the %llu visible lines are %zu bytes; first difference at byte %zu", (unsigned long long)sink.total,
+		     (unsigned long long)exp_vis, expdump_len, p);
 		return 1;
 	}
-	last_obs = vx_h_done(&h);
-	vx_set_add(&obs_set, last_obs);
+	return 0;
+}
+
+static void expect_now(void)
+{
+	tc_flush_if_full();
+	exp_vis = S.n < RING ? S.n : RING; exp_base = S.n - exp_vis;
+	expdump_len = 0;
+	for (uint64_t i = 0; i < exp_vis; i++) {
+		exp_line[i] = model_line(exp_base + i, &exp_len[i]);
+		if (expdump_len + exp_len[i] + 1 > expdump_cap) { expdump_cap = (expdump_len + exp_len[i] + 1) * 2; expdump = realloc(expdump, expdump_cap); if (!expdump) die("out of memory"); }
+		memcpy(expdump + expdump_len, exp_line[i], exp_len[i]); expdump_len += exp_len[i];
+		if (exp_len[i] > max_line_len) max_line_len = exp_len[i];
+	}
+	if (!expdump) { expdump = malloc(16); expdump_cap = 16; }
+	expdump[expdump_len] = 0;
+}
+
+/* compare the library's statics with an image of them; where they differ put the image back. 1 = they were the same */
+static int region_sync(uint8_t *live, const uint8_t *img, size_t n)
+{
+	uint64_t diff = 0; size_t i = 0;
+	for (; i + 8 <= n; i += 8) {
+		uint64_t a, b; memcpy(&a, live + i, 8); memcpy(&b, img + i, 8);
+		if (a != b) { diff = 1; memcpy(live + i, &b, 8); }
+	}
+	for (; i < n; i++) if (live[i] != img[i]) { diff = 1; live[i] = img[i]; }
+	return !diff;
+}
+static int lib_same(const uint8_t *img)
+{
+	size_t d = vx_lib_dsz(), b = vx_lib_bsz();
+	if ((!d || !memcmp(img, __start_vxlibdata, d)) && (!b || !memcmp(img + d, __start_vxlibbss, b))) return 1;	/* the usual case */
+	if (d) region_sync((uint8_t *)__start_vxlibdata, img, d);
+	if (b) region_sync((uint8_t *)__start_vxlibbss, img + d, b);
+	return 0;
+}
+static uint8_t *pass_img;
+
+/* every read the property names, on the live library, each one from the state the last operation left (a read that
+ * changes the image is noted in S.impure and undone); 1 = violation recorded */
+static int reads_pass(void)
+{
+	vx_hasher h;
+	n_passes++;
+	if (S.n > max_n_seen) max_n_seen = S.n;
+	expect_now();
+	vx_lib_save(pass_img);
+	memset(S.impure, 0, sizeof(S.impure));
+	vx_h_init(&h);
+#define STEP(r, hp) do { if (do_read((r), (hp))) return 1; \
+		if (!lib_same(pass_img)) { S.impure[(r) >> 3] |= (uint8_t)(1u << ((r) & 7)); n_impure++; } } while (0)
+	for (int r = 0; r < NK; r++) STEP(r, &h);
+	STEP(R_DUMP, &h);
+	STEP(R_DUMP, NULL);								/* the dump again */
+	const int again[6] = { -1, 0, (int)exp_vis - 1, (int)exp_vis, RING - 1, RING };	/* the same k twice in a row */
+	for (int i = 0; i < 6; i++) { int r = kidx(again[i]); if (r < 0) continue; STEP(r, NULL); STEP(r, NULL); }
+#undef STEP
+	vx_set_add(&obs_set, vx_h_done(&h));
 	return 0;
 }
 
 /* --------------------------------------------------------------- operations */
 
-enum { OP_MLOG0, OP_MLOG1, OP_MLOG2, OP_MLOG3, OP_NICE, OP_CLEAR, NOPS };
-static const char *opname[NOPS] = { "mlog0", "mlog1", "mlog2", "mlog3", "mlog_nice", "mlog_clear" };
-static uint64_t op_count[NOPS], nice_recorded, nice_dropped, folds_seen, leaf_states;
-static int max_depth;
-static vx_set state_set;
+enum { OK_MLOG, OK_NICE, OK_CLEAR, OK_READ, OK_REP_MLOG, OK_REP_NICE, OK_KINDS };
+static const char *kindname[OK_KINDS] = { "mlog", "mlog_nice", "mlog_clear", "read", "mlog-again", "mlog_nice-again" };
+static uint64_t op_count[OK_KINDS], nice_recorded, nice_declined_room, nice_full, read_ops_get, read_ops_dump;
+static uint64_t fam_states[2], fam_transitions[2], fam_units[2];
 
-static int op_enabled(int op) { (void)op; return 1; }
-static void op_describe(int op, vx_sb *sb) { vx_sb_printf(sb, "%s", opname[op]); }
-static void canon_full(vx_hasher *h) { canon_impl(h); canon_model(h); }
-static void op_canon(vx_hasher *h)
+static int op_kind(int op, int *arg)
 {
-	/* states at the depth bound are never expanded: store one representative only (they are still counted,
-	 * distinctly, in state_set by op_apply) */
-	if (max_depth && (int)S.depth >= max_depth) { vx_h_u64(h, 0x1eafULL); return; }
-	memcpy(&log, &S.lg, sizeof(log));
-	canon_full(h);
+	*arg = 0;
+	if (fam == FAM_COUNT) { if (op < 3) return op; *arg = op - 3; return OK_READ; }
+	if (op == 0) return OK_CLEAR;
+	if (op == 1) return OK_REP_MLOG;
+	if (op == 2) return OK_REP_NICE;
+	if (op < 3 + NREADOPS) { *arg = op - 3; return OK_READ; }
+	op -= 3 + NREADOPS; *arg = op >> 1;
+	return (op & 1) ? OK_NICE : OK_MLOG;
 }
+static int fam_nops(void) { return fam == FAM_COUNT ? 3 + NREADOPS : 3 + NREADOPS + 2 * nmenu; }
+#define MAXREADOPS (vx_thorough() ? 2 : 1)	/* read operations per history */
+
+static int op_enabled(int op)
+{
+	int arg, kind = op_kind(op, &arg);
+	if (kind == OK_READ) {
+		int r = rep_read(arg, S.n < RING ? S.n : RING);
+		return r >= 0 && S.reads_used < MAXREADOPS && ((S.impure[r >> 3] >> (r & 7)) & 1);
+	}
+	if (fam == FAM_COUNT) return 1;
+	if (kind == OK_CLEAR) return S.depth ? 1 : split_j == 0;
+	if (kind == OK_REP_MLOG || kind == OK_REP_NICE) return S.depth && S.last_valid;
+	if (S.depth == 0) return (op - 3 - NREADOPS) % split_n == split_j;
+	return menu[arg].reduced;
+}
+static void op_describe(int op, vx_sb *sb)
+{
+	int arg, kind = op_kind(op, &arg);
+	if (kind == OK_READ) { if (arg == NREP) vx_sb_printf(sb, "mlog_dump"); else vx_sb_printf(sb, "mlog_get_line(%s)", repname[arg]); }
+	else if (fam == FAM_CONTENT && (kind == OK_MLOG || kind == OK_NICE)) vx_sb_printf(sb, "%s[%s]", kindname[kind], menu[arg].label);
+	else vx_sb_printf(sb, "%s", kindname[kind]);
+}
+static void op_canon(vx_hasher *h) { canon_model(h); }	/* the engine adds the image of the library's statics */
 
 static int op_apply(int op)
 {
-	msg_t m;
-	op_count[op]++;
-	ctx_mode = CTX_BFS; ctx_after = op <= OP_MLOG3 ? "mlog" : opname[op];	/* mlog0..3 differ only in their arguments */
-	memcpy(&log, &S.lg, sizeof(log));
-	unsigned head0 = log.head;
-	if (op <= OP_MLOG3) make_msg(op, S.seq, &m);
-	else if (op == OP_NICE) make_msg(K_NICE, S.seq, &m);
-	if (VX_TRY) {
-		if (op == OP_CLEAR) mlog_clear(); else issue(&m, op == OP_NICE);
-		VX_END;
-	} else {
-		VX_END;
-		fail("op-fault", opname[op], "%s", vx_fault_msg);
-		return 1;
-	}
-	/* model */
-	if (op == OP_CLEAR) { S.n = 0; S.fill_n = 0; S.fill_base = 0; S.nexp = 0; memset(S.exp, 0, sizeof(S.exp)); }
-	else if (op == OP_NICE) {
-		if (S.n < RING) { model_append(&m); nice_recorded++; } else nice_dropped++;
-		S.seq++;
-	} else { model_append(&m); S.seq++; }
+	msg_t m; int arg, kind = op_kind(op, &arg), nice = (kind == OK_NICE || kind == OK_REP_NICE);
+	op_count[kind]++;
+	ctx_mode = CTX_BFS;
+	ctx_after = kind == OK_READ ? (arg == NREP ? "dump" : "get_line") : kind == OK_REP_MLOG || kind == OK_REP_NICE ? "same-call-again" : kindname[kind];
 	S.depth++;
-	if (op != OP_CLEAR && log.head < head0) folds_seen++;
-	memcpy(&S.lg, &log, sizeof(log));
-	int bad = observe();
-	if (!bad) {
-		vx_hasher h; vx_h_init(&h); canon_full(&h);
-		if (vx_set_add(&state_set, vx_h_done(&h)) && max_depth && (int)S.depth >= max_depth) leaf_states++;
+	if (kind == OK_READ) {
+		/* a read that is known to change the library's statics: done for real, its effect stays */
+		if (arg == NREP) read_ops_dump++; else read_ops_get++;
+		S.reads_used++;
+		expect_now();
+		if (do_read(rep_read(arg, exp_vis), NULL)) return 1;
+		return reads_pass();
 	}
-	return bad;
+	if (kind == OK_CLEAR) {
+		if (VX_TRY) { mlog_clear(); VX_END; }
+		else { VX_END; fail("op-fault", "mlog_clear", "%s", vx_fault_msg); return 1; }
+		S.n = S.fill_n = S.fill_base = 0; S.nexp = 0; memset(S.exp, 0, sizeof(S.exp));
+		return reads_pass();
+	}
+	if (kind == OK_REP_MLOG || kind == OK_REP_NICE) m = S.last;
+	else if (fam == FAM_COUNT) count_msg(S.seq, &m);
+	else m = menu[arg].m;
+	if (VX_TRY) { issue(&m, nice); VX_END; }
+	else { VX_END; fail("op-fault", nice ? "mlog_nice" : "mlog", "%s", vx_fault_msg); return 1; }
+	if (!nice) model_append(&m);
+	else if (S.n >= RING) nice_full++;		/* must not record: the reads pass shows it if it did */
+	else {
+		/* room: the statement does not say that it must record - look whether a line was added */
+		got_line = NULL;
+		if (VX_TRY) { got_line = mlog_get_line((int)S.n); VX_END; }
+		else { VX_END; fail("get_line-fault", fault_word(), "mlog_get_line(%d): %s", (int)S.n, vx_fault_msg); return 1; }
+		if (got_line) { if (release_line(got_line, (int)S.n)) return 1; model_append(&m); nice_recorded++; } else nice_declined_room++;
+	}
+	if (kind == OK_MLOG || kind == OK_NICE) S.seq++;
+	S.last = m; S.last_valid = 1;
+	return reads_pass();
 }
 
-/* -------------------------------------------------------------- start states */
-
-#define NSMALL 12
-static const uint64_t small_starts[NSMALL] = { 0, 1, 254, 255, 256, 257, 258, 510, 511, 512, 513, 514 };
-#define NFOLD 600
-/* every binary width the counter could be cut to: 2^b-1, 2^b, 2^b+1, 2^b+255, 2^b+256 for b = 9..30 */
-#define NPOW (22 * 5)
-#define NSTART (NSMALL + NFOLD + NPOW)
-static uint64_t start_P(int i)
-{
-	if (i < NSMALL) return small_starts[i];
-	if (i >= NSMALL + NFOLD) {
-		static const int offs[5] = { -1, 0, 1, 255, 256 };
-		int j = i - NSMALL - NFOLD;
-		return (1ULL << (9 + j / 5)) + (uint64_t)(int64_t)offs[j % 5];
-	}
-	int j = i - NSMALL;		/* 0,-1,1,-2,2,... : nearest to the fold first */
-	int off = (j & 1) ? -((j + 1) / 2) : j / 2;
-	return FOLD + (uint64_t)(int64_t)off;	/* off in -300..299 */
-}
+/* ------------------------------------------------------------------ the ladder */
 
 static uint64_t bulk_calls;
-/* issue messages gen(from..to-1) through the real mlog; 1 on fault */
-static int bulk(uint64_t from, uint64_t to)
+static volatile uint64_t bulk_pos;
+/* issue messages gen(from..to-1) through the real mlog; 1 on fault. cleared_at = UINT64_MAX: the calls continue the
+ * ladder from an empty log; otherwise the log was cleared after cleared_at messages (second generation) */
+static int bulk(uint64_t from, uint64_t to, uint64_t cleared_at)
 {
-	msg_t m;
 	while (from < to) {
-		uint64_t stop = to - from > (1u << 22) ? from + (1u << 22) : to;
+		uint64_t stop = (from | ((1u << 20) - 1)) + 1;
+		if (stop > to) stop = to;
+		bulk_pos = from;
 		if (VX_TRY) {
-			for (; from < stop; from++) { gen(from, &m); issue(&m, 0); }
+			for (uint64_t s = from; s < stop; s++) { bulk_pos = s; bulk_issue(s); }
 			VX_END;
 		} else {
 			VX_END;
-			S.n = S.fill_n = from;
-			fail("op-fault", "mlog", "fault in mlog while filling: %s", vx_fault_msg);
+			memset(&S, 0, sizeof(S)); S.seq = bulk_pos;
+			bulk_calls += bulk_pos - from;
+			fam = FAM_COUNT; ctx_mode = CTX_START; ctx_after = "start";
+			if (cleared_at == UINT64_MAX) { S.n = S.fill_n = bulk_pos; ctx_P = bulk_pos + 1; ctx_Q = 0; }
+			else { S.fill_base = cleared_at; S.n = S.fill_n = bulk_pos - cleared_at; ctx_P = cleared_at; ctx_Q = bulk_pos + 1 - cleared_at; }
+			fail("op-fault", "mlog", "fault in real mlog call number %llu: %s", (unsigned long long)bulk_pos + 1, vx_fault_msg);
 			return 1;
 		}
+		bulk_calls += stop - from;
+		from = stop;
 	}
 	return 0;
 }
 
-/* build start state P in `log` and in the model; returns 1 on a fault */
-static int build_start(uint64_t P)
+/* ---------------------------------------------------------------- work units */
+
+typedef struct { uint64_t P, Q; int fam, depth, split_j, split_n; } unit_t;
+static unit_t *units; static int nunits, capunits;
+static void unit_add(uint64_t P, uint64_t Q, int f, int depth, int sj, int sn)
 {
-	memset(&log, 0, sizeof(log));
-	memset(&S, 0, sizeof(S));
-	uint64_t first = 0;
-	if (P > 1024) { first = P - 300; log.head = (unsigned)first; }	/* first < 2^31-1: the counter has not folded yet */
-	int r = bulk(first, P);
-	bulk_calls += P - first;
-	S.n = S.fill_n = S.seq = P; S.fill_base = 0;
-	memcpy(&S.lg, &log, sizeof(log));
-	return r;
+	for (int i = 0; i < nunits; i++) if (units[i].P == P && units[i].Q == Q && units[i].fam == f && units[i].split_j == sj) { if (depth > units[i].depth) units[i].depth = depth; return; }
+	if (nunits == capunits) { capunits = capunits ? capunits * 2 : 1024; units = realloc(units, sizeof(unit_t) * (size_t)capunits); if (!units) die("out of memory"); }
+	units[nunits++] = (unit_t){ P, Q, f, depth, sj, sn };
+}
+static int unit_cmp(const void *a, const void *b)
+{
+	const unit_t *x = a, *y = b;
+	if (x->P != y->P) return x->P < y->P ? -1 : 1;
+	if (x->fam != y->fam) return x->fam - y->fam;
+	if (x->Q != y->Q) return x->Q < y->Q ? -1 : 1;
+	return x->split_j - y->split_j;
+}
+static const int pow_off[] = { -257, -256, -255, -2, -1, 0, 1, 2, 254, 255, 256, 257, 258 };
+#define NPOWOFF ((int)(sizeof(pow_off) / sizeof(pow_off[0])))
+#define MAIN_TOP_BIT 26			/* the main part climbs to 2^26+258; the fold part does 2^27 .. 2^31+ */
+#define CONTENT_SPLIT 64
+static const uint64_t second_q[] = { 1, 255, 256, 257 };
+
+static int env_int(const char *name, int dflt) { const char *e = getenv(name); return e && atoi(e) > 0 ? atoi(e) : dflt; }
+
+/* a start count of the count family: the search from the state after P real calls, and - second generation - from
+ * the states after P real calls, mlog_clear and Q more real calls (a log that was used before it was cleared) */
+static void count_start(uint64_t P, int D, int D2)
+{
+	unit_add(P, 0, FAM_COUNT, D, 0, 1);
+	if (P) for (unsigned i = 0; i < sizeof(second_q) / sizeof(second_q[0]); i++) unit_add(P, second_q[i], FAM_COUNT, D2, 0, 1);
 }
 
-static void bfs_init(uint64_t P, int depth)
+static void make_units(void)
 {
-	static char name[32];
-	snprintf(name, sizeof(name), "P%llu", (unsigned long long)P);
+#ifndef C20_FOLD
+	int D = env_int("C20_DEPTH", vx_thorough() ? 8 : 5), D2 = vx_thorough() ? 4 : 2;
+	/* every count 0..1030 is observed; the searches start from the counts around the multiples of 256 ... */
+	for (uint64_t P = 0; P <= 1030; P++) unit_add(P, 0, FAM_COUNT, 0, 0, 1);
+	static const uint64_t small[] = { 0, 1, 2, 254, 255, 256, 257, 258, 510, 511, 512, 513, 514, 766, 767, 768, 769, 770 };
+	for (unsigned i = 0; i < sizeof(small) / sizeof(small[0]); i++) count_start(small[i], D, D2);
+	/* ... and on both sides of every power of two (every width a counter could have) */
+	for (int b = 9; b <= MAIN_TOP_BIT; b++)
+		for (int j = 0; j < NPOWOFF; j++) count_start((1ULL << b) + (uint64_t)(int64_t)pow_off[j], D, D2);
+	static const uint64_t cstart[] = { 0, 1, 255, 256, 257, 600 };
+	int CD = env_int("C20_CDEPTH", vx_thorough() ? 3 : 2);
+	for (unsigned i = 0; i < sizeof(cstart) / sizeof(cstart[0]); i++)
+		for (int j = 0; j < CONTENT_SPLIT; j++)
+			unit_add(cstart[i], 0, FAM_CONTENT, (CD > 2 && cstart[i] != 0 && cstart[i] != 256) ? 2 : CD, j, CONTENT_SPLIT);
+#else
+	int D = env_int("C20_DEPTH", vx_thorough() ? 6 : 4), D2 = vx_thorough() ? 3 : 2;
+	for (int b = MAIN_TOP_BIT + 1; b <= 30; b++)
+		for (int j = 0; j < NPOWOFF; j++) count_start((1ULL << b) + (uint64_t)(int64_t)pow_off[j], D, D2);
+	for (uint64_t m = 1; m < 32; m++) unit_add(m << 26, 0, FAM_COUNT, 0, 0, 1);		/* observed on the way */
+	int hi = vx_thorough() ? 600 : 299;
+	for (int j = -300; j <= hi; j++) count_start(FOLD + (uint64_t)(int64_t)j, D, D2);
+#endif
+	qsort(units, (size_t)nunits, sizeof(unit_t), unit_cmp);
+}
+
+static void bfs_init(const unit_t *u)
+{
+	fam = u->fam; split_j = u->split_j; split_n = u->split_n; bfs_depth = u->depth;
+	ctx_P = u->P; ctx_Q = u->Q; set_cfgname();
 	memset(&B, 0, sizeof(B));
-	B.live = &S; B.size = sizeof(S); B.nops = NOPS; B.enabled = op_enabled; B.apply = op_apply;
-	B.canon = op_canon; B.describe = op_describe; B.name = name; B.max_depth = depth;
-	max_depth = depth;
+	B.live = &S; B.size = sizeof(S); B.nops = fam_nops(); B.enabled = op_enabled; B.apply = op_apply;
+	B.canon = op_canon; B.describe = op_describe; B.name = cfgname; B.max_depth = u->depth;
 }
 
-static int depth_for(uint64_t P)
+/* the library holds the state after u->P real calls on an empty log: finish the start state of the unit (second
+ * generation: mlog_clear and u->Q more real calls), set the model, run the first reads pass; 1 = violation recorded */
+static int unit_start(const unit_t *u)
 {
-	const char *e = getenv("C20_DEPTH");
-	(void)P;
-	if (e && atoi(e) > 0) return atoi(e);
-	return vx_thorough() ? 6 : 4;
+	fam = u->fam; split_j = u->split_j; split_n = u->split_n;
+	ctx_mode = CTX_START; ctx_P = u->P; ctx_Q = u->Q; ctx_after = "start";
+	memset(&S, 0, sizeof(S)); S.n = S.fill_n = S.seq = u->P;
+	if (u->Q) {
+		if (VX_TRY) { mlog_clear(); VX_END; }
+		else { VX_END; fail("op-fault", "mlog_clear", "mlog_clear after %llu real mlog calls: %s", (unsigned long long)u->P, vx_fault_msg); return 1; }
+		if (bulk(u->P, u->P + u->Q, u->P)) return 1;
+		S.fill_base = u->P; S.n = S.fill_n = u->Q; S.seq = u->P + u->Q;
+	}
+	return reads_pass();
 }
 
-static void run_start(int idx)
+static int n_samples_fam[5];
+static void run_unit(const unit_t *u)
 {
-	uint64_t P = start_P(idx);
-	ctx_mode = CTX_START; ctx_P = P; ctx_after = "start";
-	if (build_start(P)) return;
-	if (observe()) return;
-	vx_hasher h; vx_h_init(&h); canon_full(&h); vx_set_add(&state_set, vx_h_done(&h));
-	bfs_init(P, depth_for(P));
+	if (unit_start(u)) { vx_and("exhaustive", 0); return; }	/* counterexample in the start state: nothing searched from it */
+	vx_count("traces", 1);
+	if (u->Q) vx_count("second_generation_start_states", 1);
+	if (u->depth == 0) { vx_count("counts_observed_only", 1); return; }
+	bfs_init(u);
 	vx_bfs_run(&B);
+	fam_states[fam] += B.states; fam_transitions[fam] += B.transitions; fam_units[fam]++;
+	vx_count("states", B.states);
 	vx_count("transitions", B.transitions); vx_count("traces", B.transitions);
+	vx_count("scope_guard_disabled_ops", B.disabled);
 	vx_and("exhaustive", !B.capped);
 	vx_max("max_depth", (uint64_t)B.depth_done);
-	vx_count("start_states", 1);
-	if (P > 1024) vx_count("start_states_positioned", 1); else vx_count("start_states_by_real_calls_only", 1);
-	if (B.capped) vx_note("search from P=%llu stopped early (deadline or violation cap) at depth %d", (unsigned long long)P, B.depth_done);
-	if (idx < 2 || idx == NSMALL || idx == NSMALL + 1) {
-		vx_sb hs = {0};
-		static uint32_t ops[16]; int n = vx_store_trace(&B.st, B.st.n - 1, ops, 16);
+	/* samples (worker 0 of each part): one search of each kind - content, count, second generation, and the last two again
+	 * for the largest counts of the part */
+#ifdef C20_FOLD
+	int big = u->P >= FOLD - 1;
+#else
+	int big = u->P >= (1ULL << MAIN_TOP_BIT) - 257;
+#endif
+	int sf = fam == FAM_CONTENT ? 1 : big ? (u->Q ? 4 : 3) : (u->Q ? 2 : 0);
+	if (B.capped) vx_note("search from %s stopped early (deadline or violation cap) at depth %d", cfgname, B.depth_done);
+	else if (vx_args.worker == 0 && n_samples_fam[sf] < 1 && B.st.n > 1 && (fam == FAM_COUNT ? u->P > 256 : 1)) {
+		vx_sb hs = {0}; char second[96] = "";
+		uint64_t first = B.st.n - 1; while (first > 0 && B.st.depth[first - 1] == B.st.depth[B.st.n - 1]) first--;
+		static uint32_t ops[16]; int n = vx_store_trace(&B.st, (first + B.st.n - 1) / 2, ops, 16);	/* the middle one of the deepest states */
 		for (int i = 0; i < n; i++) { if (i) vx_sb_printf(&hs, "; "); op_describe((int)ops[i], &hs); }
-		vx_sample("start P=%llu (%s): %llu transitions to depth %d; a deepest history: %s", (unsigned long long)P,
-			  P > 1024 ? "head placed at P-300 + 300 real calls" : "P real calls", (unsigned long long)B.transitions, B.depth_done, hs.s ? hs.s : "");
+		if (u->Q) snprintf(second, sizeof(second), ", mlog_clear and %llu more real calls", (unsigned long long)u->Q);
+		vx_sample("%s family, start after %llu real mlog calls%s%s: %llu states, %llu transitions to depth %d; a deepest history: %s",
+			  fam == FAM_COUNT ? "count" : "content", (unsigned long long)u->P, second, fam == FAM_CONTENT ? " (one of 64 slices of the first operation)" : "",
+			  (unsigned long long)B.states, (unsigned long long)B.transitions, B.depth_done, hs.s ? hs.s : "");
 		free(hs.s);
+		n_samples_fam[sf]++;
 	}
 	vx_bfs_free(&B);
-}
-
-/* ------------------------------------------------------------------ long run */
-
-#define LONG_TOTAL (0x80000000ULL + 600)
-
-static int in_positioned_set(uint64_t c) { return c + 300 >= FOLD && c <= FOLD + 299; }
-static int want_obs(uint64_t c) { return c <= 600 || c + 900 >= FOLD || (c & ((1u << 26) - 1)) == 0; }
-
-static void long_run(uint64_t total)
-{
-	uint64_t c = 0, conf_points = 0, conf_fail = 0, head_checks = 0;
-	memset(&log, 0, sizeof(log)); memset(&S, 0, sizeof(S));
-	ctx_mode = CTX_LONG; ctx_after = "mlog";
-	if (observe()) return;
-	while (c < total) {
-		uint64_t next = c + 1;
-		if (!want_obs(next)) {
-			next = (c | ((1u << 22) - 1)) + 1;		/* next multiple of 2^22 */
-			if (next + 900 > FOLD && c + 900 < FOLD) next = FOLD - 900;
-			if (next > total) next = total;
-		}
-		if (bulk(c, next)) return;
-		c = next; S.n = S.fill_n = S.seq = c;
-		if (c < FOLD) {
-			/* premise of the positioning shortcut: before the fold the counter equals the number of calls */
-			head_checks++;
-			if (log.head != c) { vx_note("shortcut premise broken: after %llu calls log.head=%u", (unsigned long long)c, log.head); vx_and("shortcut_conforms", 0); vx_and("exhaustive", 0); }
-		}
-		if (want_obs(c) || c == total) {
-			ctx_mode = CTX_LONG; ctx_after = "mlog";
-			if (observe()) return;
-			vx_count("transitions", 1); vx_count("traces", 1);
-		}
-		if (in_positioned_set(c)) {
-			static struct mlog keep; static struct live keepS;
-			vx_hasher h; vx_h_init(&h); canon_impl(&h); vx_h128 real_state = vx_h_done(&h), real_obs = last_obs;
-			memcpy(&keep, &log, sizeof(log)); keepS = S;
-			ctx_mode = CTX_START; ctx_P = c; ctx_after = "start";
-			int r = build_start(c) || observe();
-			vx_h_init(&h); canon_impl(&h); vx_h128 pos_state = vx_h_done(&h);
-			conf_points++;
-			if (r || pos_state.a != real_state.a || pos_state.b != real_state.b || last_obs.a != real_obs.a || last_obs.b != real_obs.b) {
-				conf_fail++;
-				vx_note("positioned start P=%llu differs from the state after %llu real calls (head %u vs %u)",
-					(unsigned long long)c, (unsigned long long)c, log.head, keep.head);
-			}
-			memcpy(&log, &keep, sizeof(log)); S = keepS;
-		}
-		if (vx_deadline_passed() && c < total) {
-			vx_and("exhaustive", 0);
-			vx_note("long run cut by the deadline after %llu calls", (unsigned long long)c);
-			break;
-		}
-	}
-	vx_count("long_run_calls", c);
-	vx_count("long_run_head_equals_count_checks", head_checks);
-	vx_count("shortcut_conformance_points", conf_points);
-	vx_count("shortcut_conformance_failures", conf_fail);
-	vx_and("shortcut_conforms", conf_fail == 0);
-	if (conf_fail) vx_and("exhaustive", 0);
-	vx_sample("long run: %llu real mlog calls from an empty log, compared with the model after every call for counts <= 600 and "
-		  ">= 2^31-901 and every 2^26 calls; %llu positioned start states compared with the real state (failures: %llu); final log.head=%u",
-		  (unsigned long long)c, (unsigned long long)conf_points, (unsigned long long)conf_fail, log.head);
 }
 
 /* ---------------------------------------------------------------------- main */
@@ -497,46 +853,75 @@ int main(int argc, char **argv)
 	vx_init(argc, argv);
 	vx_install_handlers();
 	vx_watchdog(2.0);
-	vx_set_init(&obs_set, 16); vx_set_init(&state_set, 16);
+	if (!vx_lib_size()) die("built without lib=[...]: the library's statics are not visible");
+	pass_img = malloc(vx_lib_size());
+	uint8_t *img = malloc(vx_lib_size());
+	if (!pass_img || !img) die("out of memory");
+	vx_set_init(&obs_set, 16);
+	setup_tables();
 	char *rp = vx_read_replay();
 	if (rp) {
-		const char *mode = vx_replay_field(rp, "mode");
-		if (mode && !strcmp(mode, "longrun")) {
-			long_run(strtoull(vx_replay_field(rp, "count"), NULL, 10));
-		} else {
-			const char *cn = vx_replay_field(rp, "config");
-			uint64_t P = cn && cn[0] == 'P' ? strtoull(cn + 1, NULL, 10) : 0;
-			ctx_mode = CTX_START; ctx_P = P; ctx_after = "start";
-			if (!build_start(P) && !observe()) {
-				bfs_init(P, 0);
-				vx_bfs_replay(&B, rp);
-			}
-		}
+		const char *cn = vx_replay_field(rp, "config");
+		unit_t u = { 0, 0, FAM_COUNT, 0, 0, 1 };
+		unsigned long long a = 0, q = 0;
+		if (cn && cn[0] == 'T') { u.fam = FAM_CONTENT; sscanf(cn + 1, "%llu/%d/%d", &a, &u.split_j, &u.split_n); }
+		else if (cn && cn[0] == 'N') sscanf(cn + 1, "%llu+%llu", &a, &q);
+		u.P = a; u.Q = q;
+		if (u.split_n < 1) u.split_n = 1;
+		if (!bulk(0, u.P, UINT64_MAX) && !unit_start(&u)) { bfs_init(&u); vx_bfs_replay(&B, rp); }
 		vx_finish();
-		return 0;
+		_exit(0);
 	}
-	int only_long = getenv("C20_ONLY_LONG") != NULL;	/* debugging aid: skip the search, do the long run only */
-	for (int i = 0; i < NSTART && !only_long; i++) {
+	make_units();
+	uint64_t c = 0; int stopped = 0;
+	uint64_t img_P = UINT64_MAX;
+	for (int i = 0; i < nunits && !stopped; i++) {
 		if (!vx_mine((uint64_t)i)) continue;
 		if (vx_deadline_passed()) { vx_and("exhaustive", 0); vx_note("start states skipped: deadline"); break; }
-		if (vx_too_many_violations()) { vx_and("exhaustive", 0); break; }
-		run_start(i);
+		if (vx_too_many_violations() || vx_hangs_seen >= 3) { vx_and("exhaustive", 0); vx_note("start states skipped: too many violations / hangs"); break; }
+		const unit_t *u = &units[i];
+		if (img_P != u->P) {
+			if (img_P != UINT64_MAX) vx_lib_restore(img);		/* back to the ladder */
+			/* climb: real calls, nothing else */
+			while (c < u->P) {
+				uint64_t stop = c + (1u << 24) < u->P ? c + (1u << 24) : u->P;
+				if (bulk(c, stop, UINT64_MAX)) { stopped = 1; break; }
+				c = stop;
+				if (vx_deadline_passed() && c < u->P) { vx_note("ladder of real calls cut by the deadline after %llu calls", (unsigned long long)c); stopped = 1; break; }
+			}
+			if (stopped) { vx_and("exhaustive", 0); break; }
+			vx_lib_save(img); img_P = u->P;
+			vx_count("start_images_taken", 1);
+			vx_max("max_start_count_reached_by_real_calls", u->P);
+		} else vx_lib_restore(img);
+		run_unit(u);
 	}
-	if (vx_thorough() && vx_mine(NSTART)) long_run(LONG_TOTAL);
-	vx_count("states", state_set.n);
+	for (int f = 0; f < 2; f++) {
+		vx_count(f ? "content_family_states" : "count_family_states", fam_states[f]);
+		vx_count(f ? "content_family_transitions" : "count_family_transitions", fam_transitions[f]);
+		vx_count(f ? "content_family_searches" : "count_family_searches", fam_units[f]);
+	}
 	vx_count("distinct", obs_set.n);
 	vx_count("distinct_observation_tuples", obs_set.n);
-	vx_count("states_at_depth_bound", leaf_states);
-	vx_count("observations", n_observations);
+	vx_count("reads_passes", n_passes);
+	vx_count("reads_executed", n_reads);
 	vx_count("get_line_text_compared", n_lines_compared);
 	vx_count("get_line_null_expected", n_null_expected);
 	vx_count("dumps_compared", n_dumps);
-	vx_count("bulk_real_mlog_calls_building_starts", bulk_calls);
-	vx_count("nice_recorded", nice_recorded); vx_count("nice_dropped_log_full", nice_dropped);
-	vx_count("counter_folds_executed_in_search", folds_seen);
-	vx_count("scope_guard_disabled_ops", 0);
+	vx_count("reads_that_changed_library_statics", n_impure);
+	vx_count("read_operations_in_search_get_line", read_ops_get);
+	vx_count("read_operations_in_search_dump", read_ops_dump);
+	vx_count("real_mlog_calls_on_the_ladder", bulk_calls);
+	vx_count("nice_recorded", nice_recorded);
+	vx_count("nice_declined_although_room_not_judged", nice_declined_room);
+	vx_count("nice_with_256_recorded", nice_full);
+	vx_max("content_menu_size", (uint64_t)nmenu); vx_max("content_reduced_menu_size", (uint64_t)nreduced);
 	vx_max("max_messages_since_clear", max_n_seen);
-	for (int k = 0; k < NOPS; k++) { char nm[64]; snprintf(nm, sizeof(nm), "op_%s", opname[k]); vx_count(nm, op_count[k]); }
+	vx_max("max_line_bytes", max_line_len);
+	vx_max("library_static_image_bytes", vx_lib_size());
+	for (int k = 0; k < OK_KINDS; k++) { char nm[64]; snprintf(nm, sizeof(nm), "op_%s", kindname[k]); vx_count(nm, op_count[k]); }
+	if (nice_declined_room && !nice_recorded) vx_note("mlog_nice never recorded anything although there was room (not demanded by the statement, so not judged)");
 	vx_finish();
+	if (leaked_file) _exit(0);
 	return 0;
 }
